@@ -61,7 +61,8 @@ Example D7_known_refuted : let s := run_doc "xhtml" 0 ".Im i.png cap
 Proof. vm_compute. split; reflexivity. Qed.
 
 (* proved for every document of a sub-language, every world and every positive nesting fuel: text lines, .Bm, .Em and .Sm
-   (any arguments), .P with or without a title (inline macros in the title included), display blocks .Bd/.Ed nested
+   (any arguments), .P with or without a title (inline macros in the title included), dialogue paragraphs .D, links
+   .Lk with or without a label (any url: the normalisation oracle may reject it), display blocks .Bd/.Ed nested
    to any depth, headers .Ch/.Pt/.Sh/.Ss with any arguments (numbered or not, with inline macros in the title), and
    tables of contents .Tc with any options but -mini (full or summary, numbered or not, titled; -lof/-lot/-lop find no
    entries in this sub-language), XHTML fragment mode.  The output is read by the tag machine of Proofs/Tok.v: it ends in character data with no
